@@ -16,6 +16,11 @@ def groups(n, seed):
         first = {"prob": ps, "params": pk, "run": "A", "algkey": 1, "twin": "C10"}
         if hist == 0:
             first["x0_shift"] = 0.25                      # a different start, different outcome
+            if i % 8 == 0:
+                # inequality / ranged rows that are strictly satisfied at both starts: the slack part of the start differs too
+                ps = ("convex_qp", int(rng.integers(0, 2 ** 31)), int(rng.integers(3, 6)), 2,
+                      {"row_kinds": [["ranged", "lower"], ["upper", "eq"], ["ranged", "ranged"]][(i // 8) % 3], "fmt": ("coo", "csr", "csc")[(i // 8) % 3]})
+                first["prob"] = ps
         elif hist == 1:
             first["fault"] = ("transient", None, int(rng.integers(6, 60)), "nan")   # an aborted / disturbed solve
             first["twin"] = "none"
